@@ -250,6 +250,9 @@ func (r *Runner) account(l *Line, res lineResult) {
 	r.mu.Lock()
 	defer r.mu.Unlock()
 	r.sum.Lines++
+	if l.Step.A != "" {
+		r.sum.Extra["action."+l.Step.A]++ // (per generated action: a stage in which an enabled action never fires is vacuous)
+	}
 	r.sum.Calls += res.calls
 	if res.insts > r.sum.Instances {
 		r.sum.Instances = res.insts
